@@ -415,17 +415,12 @@ func ruleCreateCallSites(w *World, r *Report, rule string) {
 				"eager creation does not skip descriptors whose key is already in the singleton table: a constructor that yields several singletons runs once per output")
 			// the key tested is built from the same descriptor
 			keyOK := false
-			ast.Inspect(fi.Decl.Body, func(x ast.Node) bool {
-				if cl, ok := x.(*ast.CompositeLit); ok {
-					if tv, ok := info.Types[cl]; ok && isNamedType(tv.Type, modPath, "instanceKey") {
-						f := compositeFields(cl)
-						if exprStr(selBase(f["Type"])) == d && exprStr(selBase(f["Key"])) == d && exprStr(selBase(f["Group"])) == d {
-							keyOK = true
-						}
-					}
+			for _, kc := range keyConsIn(w, info, fi.Decl.Body) {
+				if kc.typ == "instanceKey" && kc.f["Type"].baseStr == d && kc.f["Key"].baseStr == d && kc.f["Group"].baseStr == d &&
+					kc.f["Type"].sel == "Type" && kc.f["Key"].sel == "Key" && kc.f["Group"].sel == "Group" {
+					keyOK = true
 				}
-				return true
-			})
+			}
 			r.Check(keyOK, rule, ro.createAll.Name()+"#key-from-descriptor", c.Pos(), false,
 				"the key tested is instanceKey{Type, Key, Group} of the descriptor being constructed", "the presence test does not use the full (Type, Key, Group) identity of the descriptor being constructed")
 		}
@@ -441,45 +436,31 @@ func ruleKeyLiterals(w *World, r *Report, rule string) {
 			continue
 		}
 		info := fi.Pkg.TypesInfo
-		ast.Inspect(fi.Decl.Body, func(x ast.Node) bool {
-			cl, ok := x.(*ast.CompositeLit)
-			if !ok {
-				return true
-			}
-			tv, ok := info.Types[cl]
-			if !ok {
-				return true
-			}
-			nt := namedOf(tv.Type)
+		for _, kc := range keyConsIn(w, info, fi.Decl.Body) {
+			name := kc.typ
+			nt := namedOf(info.TypeOf(kc.node))
 			if nt == nil {
-				return true
-			}
-			name := nt.Obj().Name()
-			if name != "instanceKey" && name != "NodeKey" && name != "TypeKey" && name != "GroupKey" {
-				return true
+				continue
 			}
 			st := nt.Underlying().(*types.Struct)
-			f := compositeFields(cl)
-			tExpr, hasT := f["Type"]
+			tf, hasT := kc.f["Type"]
 			if !hasT {
-				return true
+				continue
 			}
-			base := selBase(tExpr)
-			key := fi.Name() + "#" + name + "{" + exprStr(tExpr) + "}"
+			key := fi.Name() + "#" + name + "{" + tf.str + "}"
 			seq[key]++
 			con := fmt.Sprintf("%s/%d", key, seq[key])
-			if base == nil {
-				r.OK(rule, con, cl.Pos(), false, "key built from an API argument")
-				return true
+			if tf.baseStr == "" {
+				r.OK(rule, con, kc.pos, false, "key built from an API argument")
+				continue
 			}
-			bt := info.TypeOf(base)
 			var carrier *types.Struct
-			if n := namedOf(bt); n != nil {
+			if n := namedOf(tf.baseType); n != nil {
 				carrier, _ = n.Underlying().(*types.Struct)
 			}
 			if carrier == nil {
-				r.OK(rule, con, cl.Pos(), false, "key built from a non-struct source")
-				return true
+				r.OK(rule, con, kc.pos, false, "key built from a non-struct source")
+				continue
 			}
 			has := func(s *types.Struct, fld string) bool {
 				for i := 0; i < s.NumFields(); i++ {
@@ -492,21 +473,53 @@ func ruleKeyLiterals(w *World, r *Report, rule string) {
 			var dropped []string
 			for _, comp := range []string{"Key", "Group"} {
 				if has(st, comp) && has(carrier, comp) {
-					if _, set := f[comp]; !set {
-						dropped = append(dropped, comp)
+					if v, set := kc.f[comp]; !set || v.str == "nil" || v.str == `""` {
+						if !set || tf.sel != "" {
+							dropped = append(dropped, comp)
+						}
 					}
 				}
 			}
+			// a component that is known to be empty where the key is built is not dropped
+			if len(dropped) > 0 {
+				fl := w.FlowOf(fi)
+				sol := fl.Solve(Spec{Must: true, Edge: condEdge(w, info, 2)})
+				if nd := fl.NodeContaining(kc.pos); nd != nil {
+					var rest []string
+					for _, comp := range dropped {
+						fact := tf.baseStr + "." + comp + map[string]string{"Key": "=nil", "Group": "=empty"}[comp]
+						if !sol.Before[nd].Has(fact) {
+							rest = append(rest, comp)
+						}
+					}
+					dropped = rest
+				}
+			}
+			// the group linker names a group's reference node: {Type, Key: nil, Group} by construction
+			if len(dropped) == 1 && dropped[0] == "Key" && kc.f["Group"].sel == "Group" && fi.Pkg == w.Graph {
+				if lk := groupLinker(w); lk != nil && (fi == lk || isHelperOfNamed(w, fi, lk.Obj.Name())) {
+					dropped = nil
+				}
+			}
 			// frozen exception: the services view has no group component
-			if len(dropped) == 1 && dropped[0] == "Group" && fi.Obj.Name() == "validateLifetimes" && exprStr(base) != "dep" {
+			if len(dropped) == 1 && dropped[0] == "Group" && (fi.Obj.Name() == "validateLifetimes" || isHelperOfNamed(w, fi, "validateLifetimes")) && tf.baseStr != "dep" {
 				dropped = nil
 			}
-			r.Check(len(dropped) == 0, rule, con, cl.Pos(), false,
+			r.Check(len(dropped) == 0, rule, con, kc.pos, false,
 				"the key carries every identity component its source has",
-				fmt.Sprintf("%s takes Type from %s but drops %v: keyed or grouped services collapse onto the unkeyed identity (wrong wiring, missed cycles, missed lifetime conflicts)", name, exprStr(base), dropped))
-			return true
-		})
+				fmt.Sprintf("%s takes Type from %s but drops %v: keyed or grouped services collapse onto the unkeyed identity (wrong wiring, missed cycles, missed lifetime conflicts)", name, tf.baseStr, dropped))
+		}
 	}
+}
+
+// isHelperOfNamed: fi is a private function reached only from the function named name.
+func isHelperOfNamed(w *World, fi *FuncInfo, name string) bool {
+	for c := range w.Callers()[fi] {
+		if c.Obj.Name() != name {
+			return false
+		}
+	}
+	return len(w.Callers()[fi]) > 0
 }
 
 // ruleFunctionIdentity: R04.1.
@@ -573,26 +586,27 @@ func ruleFunctionIdentity(w *World, r *Report, rule string) {
 			r.Check(bad == "", rule, "Analyzer."+f.Name()+"#key-type", f.Pos(), false, "the analysis cache key is a struct (pointer, type)", bad)
 		}
 	}
-	// (b) createInstance calls the constructor stored in the descriptor
+	// (b) createInstance calls the constructor stored in the descriptor (the invoker call
+	// may live in a private helper that receives the descriptor)
 	fi := ro.createInstance
 	info := fi.Pkg.TypesInfo
-	var dParam types.Object
-	if len(fi.Decl.Type.Params.List) == 1 && len(fi.Decl.Type.Params.List[0].Names) == 1 {
-		dParam = info.Defs[fi.Decl.Type.Params.List[0].Names[0]]
-	}
+	dParam := descriptorParam(fi)
 	m := 0
-	for _, c := range callsIn(fi.Decl.Body, true) {
-		cal := callee(info, c)
-		if cal == nil || recvNamed(cal) == nil || recvNamed(cal).Obj().Name() != "ConstructorInvoker" || !strings.HasPrefix(cal.Name(), "Invoke") {
-			continue
-		}
+	for _, site := range invokeSites(w, ro) {
+		g, c := site.fn, site.call
+		ginfo := g.Pkg.TypesInfo
+		gd := descriptorParam(g)
+		cal := callee(ginfo, c)
 		m++
 		passes := false
 		var invokeParam int = -1
 		for i, a := range c.Args {
-			if isFieldNamed(info, a, "Constructor") && objOf(info, selBase(a)) == dParam {
+			if isFieldNamed(ginfo, a, "Constructor") && gd != nil && objOf(ginfo, selBase(a)) == gd {
 				passes, invokeParam = true, i
 			}
+		}
+		if g != fi && !site.descriptorForwarded {
+			passes = false
 		}
 		r.Check(passes, rule, fmt.Sprintf("%s#constructor-operand/%d", fi.Name(), m), c.Pos(), true,
 			"the invoker is handed descriptor.Constructor of the descriptor being constructed",
@@ -612,16 +626,84 @@ func ruleFunctionIdentity(w *World, r *Report, rule string) {
 	// (c) instance registrations bypass the invoker
 	fl := w.FlowOf(fi)
 	sol := fl.Solve(Spec{Must: true, Edge: condEdge(w, info, 1)})
+	invoking := map[*types.Func]bool{}
+	for _, site := range invokeSites(w, ro) {
+		if site.fn != fi {
+			invoking[site.fn.Obj] = true
+		}
+	}
 	for _, nd := range fl.Nodes() {
 		for _, c := range callsIn(nd, false) {
 			cal := callee(info, c)
-			if cal != nil && recvNamed(cal) != nil && recvNamed(cal).Obj().Name() == "ConstructorInvoker" {
+			if cal != nil && ((recvNamed(cal) != nil && recvNamed(cal).Obj().Name() == "ConstructorInvoker") || invoking[cal]) {
 				r.Check(sol.Before[nd].Has(objName(dParam)+".IsInstance=false"), rule, fi.Name()+"#instances-bypass-invoker", c.Pos(), true,
 					"instance registrations are answered with descriptor.Instance before the invoker is reached",
 					"instance registrations go through the invoker, which returns the instance value held by the shared analysis record (keyed by type): the second instance of a type resolves to the first")
 			}
 		}
 	}
+}
+
+// descriptorParam: the (first) parameter of type *Descriptor.
+func descriptorParam(fi *FuncInfo) types.Object {
+	info := fi.Pkg.TypesInfo
+	for _, f := range fi.Decl.Type.Params.List {
+		for _, nm := range f.Names {
+			if o := info.Defs[nm]; o != nil && isNamedType(o.Type(), modPath, "Descriptor") {
+				return o
+			}
+		}
+	}
+	return nil
+}
+
+type invokeSite struct {
+	fn                  *FuncInfo
+	call                *ast.CallExpr
+	descriptorForwarded bool // fn is a helper and createInstance hands it its own descriptor
+}
+
+// invokeSites: the ConstructorInvoker.Invoke* calls of createInstance and of the
+// private helpers it calls (depth 2).
+func invokeSites(w *World, ro *roles) []invokeSite {
+	var out []invokeSite
+	top := ro.createInstance
+	topD := descriptorParam(top)
+	for _, g := range w.Within(top, 2) {
+		if g != top && (g == ro.setInstance || g == ro.setSingleton || g == ro.resolve || g == ro.resolveTop) {
+			continue
+		}
+		ginfo := g.Pkg.TypesInfo
+		for _, c := range callsIn(g.Decl.Body, true) {
+			cal := callee(ginfo, c)
+			if cal == nil || recvNamed(cal) == nil || recvNamed(cal).Obj().Name() != "ConstructorInvoker" || !strings.HasPrefix(cal.Name(), "Invoke") {
+				continue
+			}
+			site := invokeSite{fn: g, call: c}
+			if g != top {
+				// every call of g from the chain passes the descriptor being created
+				fwd := false
+				for caller := range w.Callers()[g] {
+					cd := descriptorParam(caller)
+					for _, cc := range callsIn(caller.Decl.Body, true) {
+						if callee(caller.Pkg.TypesInfo, cc) != g.Obj {
+							continue
+						}
+						fwd = false
+						for _, a := range cc.Args {
+							if cd != nil && objOf(caller.Pkg.TypesInfo, a) == cd {
+								fwd = true
+							}
+						}
+					}
+				}
+				_ = topD
+				site.descriptorForwarded = fwd
+			}
+			out = append(out, site)
+		}
+	}
+	return out
 }
 
 // paramReachesCall: parameter idx of fi is, possibly through same-package calls, the receiver of reflect.Value.Call.
